@@ -223,6 +223,7 @@ def analyse(ctx, C, fn, rep):
         rep.unk('B9', name, str(e), loc=loc)
     try:
         C04_content.check(C, fn, name, dom, leaves, facts0, rep)
+        C04_content.check_sorted_move(C, fn, name, dom, leaves, facts0, rep, getattr(ls, 'exit_vals', {}))
     except Unsupported as e:
         rep.unk('B8', name, str(e), loc=loc)
     sym = name
@@ -396,6 +397,7 @@ def run(ctx):
     rep.floor('B5', 1)
     rep.floor('B6', 4)
     rep.floor('B9', 6)
+    rep.floor('B10', 6)
     rep.floor('B2', 50)
 
 
